@@ -112,7 +112,12 @@ static void part_objects() {
                 all.add(e); st.add(fmt("ks/digit=%d", j), e); st.add(fmt("ks/h=%d", h), e); st.add(fmt("ks/keybit=%d", ext[i]), e); st.add(fmt("ks/block=%d", i * 8 / (k * N)), e);
                 for (int q = 0; q < n && q < 16; q++) { bytehist[((uint32_t)r->a[q] >> 24) & 255]++; masks++; } }
             judge(key, "key-switching rows (all)", all, aks, true);
-            { std::string pk = fmt("ksnoise/t=%d,bb=%d,alpha=%.6g", t, bb, ps->in_out_params->alpha_min); stat_sum(pk + "/n", all.n); stat_sum(pk + "/s1", all.s1); stat_sum(pk + "/s2", all.s2); }   // pooled over keys and seeds by the driver (post-merge oracle) for (auto &kv : st.m) judge(key, "key-switching rows, stratum " + kv.first, kv.second, aks, false);
+            { std::string pk = fmt("ksnoise/t=%d,bb=%d,alpha=%.6g", t, bb, ps->in_out_params->alpha_min); stat_sum(pk + "/n", all.n); stat_sum(pk + "/s1", all.s1); stat_sum(pk + "/s2", all.s2); }   // pooled over keys and seeds by the driver (post-merge oracle)
+            for (auto &kv : st.m) judge(key, "key-switching rows, stratum " + kv.first, kv.second, aks, false);
+            // the key-switching key the gates actually use is the copy inside the FFT key: it must be the same rows, all of them
+            { const LweKeySwitchKey *kf = sk->cloud.bkFFT->ks; bool same = kf->n == ks->n && kf->t == ks->t && kf->basebit == ks->basebit && kf->out_params->n == ks->out_params->n;
+              for (int i = 0; same && i < k * N; i++) for (int j = 0; same && j < t; j++) for (int h = 0; h < base; h++) { const LweSample *r = &ks->ks[i][j][h], *q = &kf->ks[i][j][h]; if (r->b != q->b || memcmp(r->a, q->a, n * 4)) { same = false; violation(key, fmt("key-switching row (%d,%d,%d) of the FFT bootstrapping key (the one gates use) differs from the generated row", i, j, h)); break; } }
+              if (!same && S().violations.empty()) violation(key, "the key-switching key inside the FFT bootstrapping key has other dimensions than the generated one"); }
             if (masks > 50000) for (int v = 0; v < 256; v++) { double ex = masks / 256; if (std::fabs(bytehist[v] - ex) > 8 * std::sqrt(ex)) { violation(key, fmt("key-switching masks: top byte value %d occurs %g times, expected %g", v, bytehist[v], ex)); break; } }
             // bootstrapping key: every coefficient of every row
             Strat sb; Mom ball; std::vector<Torus32> ph(N);
